@@ -48,6 +48,11 @@ func protCallsIn(p *Prog, f *ssa.Function, wrappers map[*ssa.Function]bool) []pr
 
 func c14(c *Ctx) {
 	p, r := c.K1(), c.R
+	// W8: a write lands intact against concurrent writers of the same page — the whole open/copy/close sequence runs under
+	// the memory lock (C11.R2)
+	if !c.importing {
+		importSibling(c, "C11", "C14.W8", func(rule string) bool { return rule == "C11.R2" })
+	}
 	r.Expl = "Structural clauses behind 'a patch touches only the entry bytes and leaves pages read+execute': only packages patch and stub call the text writer, with addresses that are the guard's origin, the validated trampoline or an acquired stub region; the jump bytes are handed out only where len(jump) < scanned extent and the trampoline write is dominated by its size guard; the writer performs mprotect(range, R|W|X) → copy → mprotect(range, R|X) over the same (addr,len) and every normal exit after the copy passes the second call; no protection change reachable from the writer drops PROT_EXEC; the page loop starts at PageStart(addr), runs while < addr+len and steps by the page size; raw reads return private copies. That the scanned extent is the true function extent (C16, linker padding) is not decided."
 	r.RuleText = "one obligation per (rule, call site / function / loop)"
 	r.Floor("C14.W1", 3)
